@@ -176,6 +176,15 @@ def r11_2(ck):
                 for e in raw:
                     forms.append(e)
                 names = set()
+                def _unfold(e):
+                    # a local bound to `x + y` counts as the sum
+                    if isinstance(e, ast.Name):
+                        d = resolve_local(f.node, e, r)
+                        if isinstance(d, ast.BinOp) and isinstance(
+                                d.op, ast.Add):
+                            return d
+                    return e
+                raw = [_unfold(e) for e in raw]
                 hs = [e for e in raw if isinstance(e, ast.Name)]
                 sums = [e for e in raw if isinstance(e, ast.BinOp) and
                         isinstance(e.op, ast.Add)]
